@@ -172,22 +172,34 @@ class Machine:
         self.in_proc = False
         self._reset_procedure()
         self.loc_has_directives = False
+        self.block_has_earlier_directives = False  # at a smaller offset of the current block
 
     def _reset_procedure(self):
         self.cie_open = False  # still at the location of .cfi_startproc
         self.cfa = None
         self.regs = {}
-        self.stack = []  # rows (cfa, regs-dict)
-        self.initial = (None, {})  # row fixed when the CIE-like prefix closes
+        self.stack = []  # immutable rows (cfa, sorted (register, rule) pairs)
+        self.initial = EMPTY_ROW  # row fixed when the CIE-like prefix closes
         self.personality = None  # (encoding, symbol)
         self.lsda = None
         self.return_column = None  # None = the ABI default
 
+    def clone(self):
+        c = Machine.__new__(Machine)
+        c.__dict__.update(self.__dict__)
+        c.regs = dict(self.regs)
+        c.stack = list(self.stack)
+        return c
+
     # -- events -----------------------------------------------------------
-    def next_location(self):
-        """Leave the current (block, offset)."""
+    def next_location(self, new_block):
+        """Leave the current (block, offset) for the next offset / the next block."""
+        if new_block:
+            self.block_has_earlier_directives = False
+        elif self.loc_has_directives:
+            self.block_has_earlier_directives = True
         if self.in_proc and self.cie_open:
-            self.initial = (self.cfa, dict(self.regs))
+            self.initial = _row(self.cfa, self.regs)
         self.cie_open = False
         self.loc_has_directives = False
 
@@ -257,7 +269,7 @@ class Machine:
             self.regs[r] = ("offset", cur[1] + n)
         elif name == ".cfi_restore":
             (r,) = args
-            init_regs = {} if self.cie_open else self.initial[1]
+            init_regs = {} if self.cie_open else dict(self.initial[1])
             if r in init_regs:
                 self.regs[r] = init_regs[r]
             else:
@@ -265,11 +277,12 @@ class Machine:
                 self.regs.pop(r, None)
         # ---- row state instructions (6.4.2.4)
         elif name == ".cfi_remember_state":
-            self.stack.append((self.cfa, dict(self.regs)))
+            self.stack.append(_row(self.cfa, self.regs))
         elif name == ".cfi_restore_state":
             if not self.stack:
                 raise IllFormed("restore-state-empty-stack")
-            self.cfa, self.regs = self.stack.pop()
+            self.cfa, regs = self.stack.pop()
+            self.regs = dict(regs)
         # ---- escaped instructions
         elif name == ".cfi_escape":
             for inst in decode_escape(list(args), self.cfg["byteorder"], self.cfg["ptr"]):
@@ -293,7 +306,7 @@ class Machine:
         if not self.in_proc:
             return None
         cur = _row(self.cfa, self.regs)
-        init = cur if self.cie_open else _row(*self.initial)
+        init = cur if self.cie_open else self.initial
         return {
             "return_column": ("default", self.cfg["return_column"]) if self.return_column is None else ("set", self.return_column),
             "personality": self.personality,
@@ -301,56 +314,88 @@ class Machine:
             "cfa": cur[0],
             "registers": cur[1],
             "initial": init,
-            "save_stack": tuple(_row(c, r) for c, r in self.stack),
+            "save_stack": tuple(self.stack),
         }
 
     def canon(self):
         """Hashable value; equal canon => equal behaviour under every future
-        event sequence (up to a shift of block / offset numbers)."""
+        event sequence (up to a shift of block / offset numbers).  The shape of
+        the table matters through: does the current location already have
+        directives, does the current block have directives at earlier offsets."""
+        where = (self.loc_has_directives, self.block_has_earlier_directives)
         if not self.in_proc:
-            return ("out", self.loc_has_directives)
+            return ("out", where)
         return (
             "in",
-            self.loc_has_directives,
+            where,
             self.cie_open,
             self.return_column,
             self.personality,
             self.lsda,
             _row(self.cfa, self.regs),
-            None if self.cie_open else _row(*self.initial),
-            tuple(_row(c, r) for c, r in self.stack),
+            None if self.cie_open else self.initial,
+            tuple(self.stack),
         )
 
 
-def run(abi, events):
-    """Reference evaluation of a whole history.
+class Run:
+    """Reference evaluation of a history, one event at a time.
 
     events: ("d", name, args, sym) | ("next",) | ("block",)
-    Returns (yields, error, machine):
-      yields  [(block_index, offset, snapshot)] in address order,
-      error   None | (number of yields completed before the error, why),
-      machine the Machine after the last event (None after an error).
     """
-    m = Machine(abi)
-    done = []  # closed locations
-    block = 0
-    off = 0
-    for ev in events:
+
+    def __init__(self, abi):
+        self.m = Machine(abi)
+        self.done = []  # (block_index, offset, snapshot) of the locations already left
+        self.block = 0
+        self.off = 0
+        self.error = None  # (number of yields completed before the error, why)
+
+    def clone(self):
+        c = Run.__new__(Run)
+        c.m = self.m.clone()
+        c.done = list(self.done)
+        c.block = self.block
+        c.off = self.off
+        c.error = self.error
+        return c
+
+    def step(self, ev):
+        if self.error is not None:
+            return  # nothing is evaluated after the error
+        m = self.m
         if ev[0] == "d":
             try:
                 m.directive(ev[1], ev[2], ev[3])
             except IllFormed as e:
-                return done, (len(done), e.why), None
+                self.error = (len(self.done), e.why)
+            return
+        if m.loc_has_directives:
+            self.done.append((self.block, self.off, m.snapshot()))
+        m.next_location(ev[0] == "block")
+        if ev[0] == "next":
+            self.off += 1
         else:
-            if m.loc_has_directives:
-                done.append((block, off, m.snapshot()))
-            m.next_location()
-            if ev[0] == "next":
-                off += 1
-            else:
-                block += 1
-                off = 0
-    out = list(done)
-    if m.loc_has_directives:
-        out.append((block, off, m.snapshot()))
-    return out, None, m
+            self.block += 1
+            self.off = 0
+
+    def result(self):
+        """(yields, error, machine): yields in address order as far as the evaluation
+        got, error None | (yields before the error, why), machine None after an error."""
+        if self.error is not None:
+            return list(self.done), self.error, None
+        out = list(self.done)
+        if self.m.loc_has_directives:
+            out.append((self.block, self.off, self.m.snapshot()))
+        return out, None, self.m
+
+    def canon(self):
+        return ("ERR", self.error[1]) if self.error is not None else self.m.canon()
+
+
+def run(abi, events):
+    """Reference evaluation of a whole history, see Run.result()."""
+    r = Run(abi)
+    for ev in events:
+        r.step(ev)
+    return r.result()
